@@ -5,8 +5,10 @@ package macho
 import (
 	"bytes"
 	"debug/macho"
+	"encoding/binary"
 	"errors"
 	"io"
+	"os"
 
 	"github.com/sassoftware/relic/v8/signers"
 )
@@ -61,4 +63,76 @@ func VH_C02_FatSlicesBoundToBundle() {
 		vhAssert(err != nil, "altered-bundle-file-rejected-for-thin-and-fat-executables")
 		vhReach("rejected") // vh:require rejected
 	}
+}
+
+type vhIpaMember struct {
+	name string
+	data []byte
+}
+
+func vhIpaZip(ms []vhIpaMember) []byte {
+	var f bytes.Buffer
+	le := binary.LittleEndian
+	offs := make([]int, len(ms))
+	for i, m := range ms {
+		offs[i] = f.Len()
+		binary.Write(&f, le, uint32(0x04034b50))
+		binary.Write(&f, le, []uint16{20, 0, 0, 0, 0})
+		binary.Write(&f, le, []uint32{0, uint32(len(m.data)), uint32(len(m.data))})
+		binary.Write(&f, le, []uint16{uint16(len(m.name)), 0})
+		f.WriteString(m.name)
+		f.Write(m.data)
+	}
+	cd := f.Len()
+	for i, m := range ms {
+		binary.Write(&f, le, uint32(0x02014b50))
+		binary.Write(&f, le, []uint16{20, 20, 0, 0, 0, 0})
+		binary.Write(&f, le, []uint32{0, uint32(len(m.data)), uint32(len(m.data))})
+		binary.Write(&f, le, []uint16{uint16(len(m.name)), 0, 0, 0, 0})
+		binary.Write(&f, le, []uint32{0, uint32(offs[i])})
+		f.WriteString(m.name)
+	}
+	size := f.Len() - cd
+	binary.Write(&f, le, uint32(0x06054b50))
+	binary.Write(&f, le, []uint16{0, 0, uint16(len(ms)), uint16(len(ms))})
+	binary.Write(&f, le, []uint32{uint32(size), uint32(cd)})
+	binary.Write(&f, le, uint16(0))
+	return f.Bytes()
+}
+
+// H02.ipa: an iOS app archive. The executable's code directory binds
+// Info.plist and _CodeSignature/CodeResources, and CodeResources in turn
+// lists a digest for every other file of the bundle. With the property-list
+// decoder and the executable's verification stubbed (they accept, as for a
+// genuine app), verifyIPA is given an archive in which ONE resource file
+// (an image the resource manifest vouches for) was altered after signing:
+// the property wants this reported. relic compares the manifest's own digest
+// only and never the files it lists - recorded known finding.
+func VH_C02_IpaResourceFilesChecked() {
+	// vh:stubbed
+	vhMaxLen(4096)
+	vhLoopBound(600)
+	vhStub("howett.net/plist.Unmarshal", func(data []byte, v interface{}) (int, error) {
+		v.(*bundlePlist).Executable = "App"
+		return 1, nil
+	})
+	vhStub("github.com/sassoftware/relic/v8/signers/macho.verifyFat", func(fr io.ReaderAt, infoPlist, resources []byte, opts signers.VerifyOpts) ([]*signers.Signature, error) {
+		return []*signers.Signature{{}}, nil
+	})
+	app := "Payload/App.app/"
+	ms := []vhIpaMember{{app + "Info.plist", []byte("<plist/>")}, {app + "_CodeSignature/CodeResources", []byte("<plist>logo.png: digest</plist>")}, {app + "App", []byte("exe")}, {app + "logo.png", []byte("PNG-as-signed")}}
+	p := vhFSPath("app.ipa")
+	vhFSPut(p, vhIpaZip(ms))
+	f, err := os.Open(p)
+	vhAssert(err == nil, "archive-opens")
+	sigs, err := verifyIPA(f, signers.VerifyOpts{})
+	vhAssert(err == nil && len(sigs) == 1, "genuine-app-verifies")
+	ms[3].data = []byte("PNG-ALTERED!!")
+	q := vhFSPath("tampered.ipa")
+	vhFSPut(q, vhIpaZip(ms))
+	g, err := os.Open(q)
+	vhAssert(err == nil, "tampered-archive-opens")
+	vhReach("checked") // vh:require checked
+	_, err = verifyIPA(g, signers.VerifyOpts{})
+	vhAssert(err != nil, "altered-resource-file-rejected")
 }
